@@ -23,6 +23,8 @@ import (
 	"time"
 
 	"verifharness/hx"
+
+	"github.com/iotaledger/hive.go/runtime/debug"
 )
 
 func replay(r *hx.Run, lines []string) {
@@ -50,6 +52,8 @@ func replay(r *hx.Run, lines []string) {
 		case "sm":
 			n, _ := strconv.Atoi(f[1])
 			sm = newSMWorld(r, n)
+			debug.SetEnabled(len(f) > 2 && f[2] == "debug")
+			defer debug.SetEnabled(false)
 			r.Line(l, "ok")
 		case "a":
 			t, _ := strconv.Atoi(f[1])
